@@ -1,7 +1,7 @@
 (* C16 -- built-in helper functions and aliases keep their documented pointwise meaning.
    Aliases are equal model functions AND bind to the same object in the TRANSFORMS registry that
    harness/translate.py regenerates from /repo/formulae/transforms.py (Generated.v, Tie.v). *)
-From Verif Require Import Base Frame Eval Design Contrasts HelpersProofs.
+From Verif Require Import Base Tokens Lazy Algebra Coding Frame Eval Design Contrasts DesignStructure DesignCoding ResponseProofs HelpersProofs HelpersPrediction.
 From Verif Require Generated Tie.
 Local Close Scope Qc_scope.
 Local Close Scope Q_scope.
@@ -57,6 +57,75 @@ Theorem C16_offset_constant_broadcast :
                List.length (dc_rows dc) = nrows /\ dc_labels dc = Some [tc_name t].
 Proof. exact offset_spec_constant. Qed.
 
+(* ---- prediction time ---- *)
+
+(* offset(v) is recomputed from the NEW frame, whatever its number of rows *)
+Theorem C16_offset_recomputed_at_prediction : forall cx mode train new v i0 xs0 i xs spans n,
+  assoc v train = Some (ColNum i0 xs0) -> assoc v new = Some (ColNum i xs) ->
+  exists t d,
+    set_type_comp cx train false (CCall (LzCall "offset" [LzVar v] [])) = Ok t /\
+    set_data_comp t spans n = Ok d /\
+    dc_rows d = col1 xs0 /\
+    new_comp cx mode new d = Ok (col1 xs, false) /\
+    List.length (col1 xs) = List.length xs /\ tc_kind (dc_t d) = KOffset.
+Proof. exact offset_variable_recomputed. Qed.
+
+(* a constant offset is broadcast to the rows of the training frame and of the new frame *)
+Theorem C16_offset_constant_at_prediction : forall cx mode train new z lx spans n,
+  exists t d,
+    set_type_comp cx train false (CCall (LzCall "offset" [LzVal (LInt z) lx] [])) = Ok t /\
+    set_data_comp t spans n = Ok d /\
+    dc_rows d = repeat [Some (qz z)] n /\
+    new_comp cx mode new d = Ok (repeat [Some (qz z)] (frame_rows new), false).
+Proof. exact offset_literal_broadcast. Qed.
+
+(* prop(y, n) / p / proportion: two columns at training, the trials of the NEW frame at prediction *)
+Theorem C16_prop_trials_of_new_frame : forall cx mode train new callee y n i j ss ts sl tl k xs,
+  In callee ["p"; "prop"; "proportion"]%string ->
+  assoc y train = Some (ColNum i ss) -> assoc n train = Some (ColNum j ts) ->
+  all_some ss = Some sl -> all_some ts = Some tl -> prop_ok sl tl = true ->
+  assoc n new = Some (ColNum k xs) ->
+  exists dt,
+    eval_response cx train [CCall (LzCall callee [LzVar y; LzVar n] [])] (frame_rows train) = Ok dt /\
+    dt_kind dt = "proportion"%string /\
+    dt_rows dt = zip_with (fun a b => [a; b]) ss ts /\
+    new_term cx mode new dt = Ok (col1 xs, false).
+Proof. exact prop_response_new_data. Qed.
+
+(* binary(x, s): training column 1 exactly where x = s, refused when s never occurs in training; at
+   prediction the same rule is applied to the NEW frame (so an s absent from the new frame is refused
+   there: the listed finding KF-C06-2 states what that means for C06) *)
+Theorem C16_binary_training : forall cx train x s lx o xs spans n,
+  assoc x train = Some (ColStr o xs) ->
+  let c := CCall (LzCall "binary" [LzVar x; LzVal (LStr s) lx] []) in
+  if existsb (str_hit s) xs then
+    exists t d, set_type_comp cx train false c = Ok t /\ set_data_comp t spans n = Ok d /\
+                tc_kind t = KNumeric /\ tc_state t = [] /\ dc_t d = t /\ tc_src t = c /\
+                dc_rows d = col1 (map (fun v => bit (str_hit s v)) xs) /\
+                dc_labels d = Some [comp_name c]
+  else set_type_comp cx train false c = Err EValue.
+Proof. exact binary_design. Qed.
+
+Theorem C16_binary_at_prediction : forall cx mode new d x s lx o xs,
+  tc_src (dc_t d) = CCall (LzCall "binary" [LzVar x; LzVal (LStr s) lx] []) ->
+  tc_kind (dc_t d) = KNumeric ->
+  assoc x new = Some (ColStr o xs) ->
+  new_comp cx mode new d =
+  if existsb (str_hit s) xs then Ok (col1 (map (fun v => bit (str_hit s v)) xs), false) else Err EValue.
+Proof. exact binary_new_data. Qed.
+
+(* a proportion can only be the response: no common or group component of a built design is one *)
+Theorem C16_proportion_never_predictor : forall cx data m D,
+  eval_model cx data m = Ok D ->
+  Forall dterm_no_prop (ds_common D) /\ Forall dgterm_no_prop (ds_group D).
+Proof. exact proportion_never_predictor. Qed.
+
+Print Assumptions C16_offset_recomputed_at_prediction.
+Print Assumptions C16_offset_constant_at_prediction.
+Print Assumptions C16_prop_trials_of_new_frame.
+Print Assumptions C16_binary_training.
+Print Assumptions C16_binary_at_prediction.
+Print Assumptions C16_proportion_never_predictor.
 Print Assumptions C16_alias_B.
 Print Assumptions C16_T_is_C_Treatment.
 Print Assumptions C16_binary_spec.
